@@ -324,7 +324,7 @@ pub fn property() -> Property {
         gen,
         check,
         finalize: no_finalize,
-        rule: "baselines = real main() booted with num_workers {1,4,16} x client_stats off/on x load {idle, long idle (20-60 simulated s), health checks while accept() fails with EMFILE, closed-loop clients while recv_from keeps failing, closed-loop clients with per-client statistics while the statistics file can no longer be created, closed-loop clients, open-loop flood of one worker with inter-arrival time below the modelled service time, carrying valid requests / another server's SRV / both alternating / garbage / empty datagrams / too-short requests}; for each baseline (fixed plan + tape) the scheduling points after every worker has started serving are counted and SIGINT or SIGTERM is delivered at point k — 40 stratified points per baseline (quick) or 600 (thorough; every point when the baseline has fewer); a fifth of the runs deliver a second signal; the run continues 3.6 simulated s; non-trivial = the handler ran; distinct = distinct schedule fingerprints",
+        rule: "baselines = real main() booted with num_workers {1,4,16} x client_stats off/on x load {idle, long idle (20-60 simulated s), health checks while accept() fails with EMFILE, closed-loop clients while recv_from keeps failing, closed-loop clients with per-client statistics while the statistics file can no longer be created or every file operation stalls (a reporter round longer than its one-second sleep), closed-loop clients, open-loop flood of one worker with inter-arrival time below the modelled service time, carrying valid requests / another server's SRV / both alternating / garbage / empty datagrams / too-short requests / both protocols alternating with runt datagrams}; for each baseline (fixed plan + tape) the scheduling points after every worker has started serving are counted and SIGINT or SIGTERM is delivered at point k — 40 stratified points per baseline (quick) or 600 (thorough; every point when the baseline has fewer); a fifth of the runs deliver a second signal; the run continues 3.6 simulated s; non-trivial = the handler ran; distinct = distinct schedule fingerprints",
         assumptions: &["exit deadline: 3 simulated seconds after the handler ran (100 ms poll timeout + 1 s reporter sleep + margin)", "flood verdicts depend on the service-time model: ~0.5 ms per request against one datagram every 0.2 ms"],
         real: REAL_F,
         stub: STUB,
